@@ -18,7 +18,8 @@ import gr2
 import harness
 import ttf
 
-THEOREMS = ["Grc.Lim.guarded_no_wrap"]
+THEOREMS = ["Grc.Lim.guarded_no_wrap", "Grc.Writes.classified_fit", "Grc.Writes.rows_distinct", "Grc.Writes.guarded_value_unchanged",
+            "Grc.WritesGen.every_write_classified", "Grc.WritesGen.census_as_classified"]
 HDR = '#include "stddef.gdh"\n'
 GT = "table(glyph) cA = glyphid(3..6); cB = glyphid(7..10); cS = glyphid(11); endtable;\n"
 
@@ -251,7 +252,7 @@ FAMILIES = [
 
 def run(tier, seed, replay=None):
     rep = common.Report("C12", tier, seed)
-    common.lean_gate(rep, THEOREMS, uses_tables=True)
+    common.lean_gate(rep, THEOREMS, uses_tables=True, uses_writes=True)
     build = common.build_repo("rel")
     work = common.new_workdir("c12")
     font, _g, _c = ttf.simple_font(130)
